@@ -41,8 +41,9 @@ def row_henc(dt, value):
         return {"t": dt, "op": "henc", "v": tv(value), "ok": False, "out": []}
 
 
-def row_dec(dt, b):
-    v = var_of(dt)
+def row_dec(dt, b, var=None):
+    v = var_of(dt) if var is None else var
+    v.data_type = dt          # (a dictionary entry whose type is assigned later, or assigned again)
     try:
         val = v.decode_raw(bytes(b))
         return {"t": dt, "op": "dec", "b": list(b), "ok": True, "v": tv(val)}
@@ -141,6 +142,13 @@ def build_rows(tier, seed):
         lo, hi = enc.int_range(dt)
         for val in (lo, hi, 0, 5, -5 if lo < 0 else 6):
             rows.append(row_enc(dt, val, limits=(-1 if lo < 0 else 1, 3)))
+    # one dictionary entry whose data type is assigned again between decodes
+    shared = var_of(0x3)
+    seq = [(0x3, b"\xff\xff"), (0x6, b"\xff\xff"), (0x7, b"\x01\x02\x03\x04"), (0x3, b"\x00\x80"), (0x8, b"\x00\x00\x80\x3f"),
+           (0x7, b"\x00\x00\x80\x3f"), (0x2, b"\x80"), (0x5, b"\x80"), (0x10, b"\xff\xff\xff"), (0x16, b"\xff\xff\xff"),
+           (0x6, b"\x01"), (0x5, b"\x01\x02"), (0x4, b"\xff\xff\xff\xff"), (0x11, bytes(8)), (0x15, b"\x01" * 8)]
+    for dt, b in seq + seq[::-1]:
+        rows.append(row_dec(dt, b, var=shared))
     rows = [r for r in rows if r is not None]
     # BOOLEAN
     rows.append({"t": enc.BOOLEAN, "op": "len", "bits": len(var_of(enc.BOOLEAN))})
